@@ -1005,6 +1005,19 @@ fn evaluate(plan: &PlanB, kernel: &Arc<Kernel>, sh: &Sh, sent_at_ns: &[u64], _en
             let ede: String = m.edns_options().iter().filter(|(c, _)| *c == 15).map(|(_, v)| format!("EDE {} {:?}", if v.len() >= 2 { u16::from_be_bytes([v[0], v[1]]) } else { 0 }, String::from_utf8_lossy(&v[v.len().min(2)..]))).collect::<Vec<_>>().join("; ");
             let recs: Vec<&Rr> = m.answer.iter().chain(m.authority.iter()).chain(m.additional.iter()).filter(|r| r.rtype != T_OPT).collect();
 
+            /* a client the ACLs grant recursion to, refused without its upstream ever being
+             * asked (so the REFUSED is erbium's own), where routing says something else */
+            if granted && rcode == 5 && recs.is_empty() {
+                let own_refusal = match &expect {
+                    Expect::NxDomain | Expect::ServFail => true,
+                    Expect::Forward(_) => unique_name && contacted.is_empty() && q.ans.rcode & 0xf != 5,
+                    Expect::Refused => false,
+                };
+                if own_refusal {
+                    res.violate("C08", "C08.permitted_client_refused.dns", format!("{} is granted dns-recursion by the ACLs in force ({:?}) but {} was REFUSED [{}]", q.src_ip, rules.iter().map(|r| format!("{:?}", r.subnets)).collect::<Vec<_>>(), q.qname.to_text(), ede), qi);
+                    continue;
+                }
+            }
             match &expect {
                 Expect::Refused | Expect::NxDomain | Expect::ServFail => {
                     let want = match expect {
